@@ -1,13 +1,41 @@
-(* C09 — pinned statements; proofs live in Proofs/. *)
-From NW Require Import Base.Bytes Model.SchemaTypes Gen.Schema Model.Codec Model.Ids Model.Server.
+(* C09 — Modulator-delegated authentication is fail-closed.
+   Pinned statements (types pasted verbatim from the proved lemmas by tools/pin.py); proofs in Proofs/Server*.v. *)
+From NW Require Import Base.Bytes Model.SchemaTypes Gen.Schema Model.Codec Model.MsgInfo Model.Ids Model.Server.
+From NW Require Import Proofs.ServerLib Proofs.ServerRoute Proofs.ServerHandlers Proofs.ServerSteps Proofs.ServerPhases.
+From NW Require Import Proofs.ServerInvBase Proofs.ServerInv Proofs.ServerUniq Proofs.ServerInvCor.
 
-(* the model computes: a client connects, identifies and creates a channel *)
-Example C09_model_smoke :
-  let cfg := {| domain := bs "localhost"; has_mod := false; op_auth := false; op_fbp := false; op_fev := false; op_spp := false;
-                proto := []; max_clients := 10; max_subs := 10; max_payload_cfg := 1024; max_inflight := 10; max_message := 1024;
-                keepalive := 60000; min_keepalive := 1000; max_conns := 16; pool_budget := 4194304 |} in
-  let s := run_state cfg init [Open 1; Bytes 1 (bs "CONNECT version=1 heartbeat_interval=0" ++ [NL]) [] [];
-                               Bytes 1 (bs "IDENTIFY username=alice" ++ [NL]) [] [];
-                               Bytes 1 (bs "JOIN id=1 channel=!c1@localhost" ++ [NL]) [] []] in
-  map fst (chans s) = [bs "c1"] /\ map fst (router s) = [bs "alice"].
-Proof. vm_compute. split; reflexivity. Qed.
+Theorem C09_only_success :
+  forall (cfg : scfg) (h : N) (m : msg) (p : option (list N)) (c : ctx) (cn : conn),
+    auth_required cfg = true ->
+    nlookup h (conns (st c)) = Some cn ->
+    c_phase cn = Connected ->
+    existsb (N.eqb h) (closing c) = false ->
+    let c' := on_frame cfg h m p c in
+    exists cn' : conn,
+      nlookup h (conns (st c')) = Some cn' /\
+      (c_phase cn' = Authenticated ->
+       is_kind m "AUTH" = true /\
+       (exists (u : str) (rest : list moutcome),
+          script c = MAuthSuccess u :: rest /\
+          u <> [] /\
+          nid_validate u (domain cfg) = true /\ c_nid cn' = Some {| nu := u; nd := domain cfg |})) /\
+      ((forall u : str, head_outcome (script c) <> MAuthSuccess u) ->
+       cn' = cn /\ router (st c') = router (st c)) /\
+      (c_phase cn' <> Authenticated -> cn' = cn /\ router (st c') = router (st c)) /\
+      (is_kind m "IDENTIFY" = true ->
+       c' =
+       {|
+         st := st c;
+         script := script c;
+         hints := hints c;
+         outs := outs c ++ [OClose h (err_msg None "UNEXPECTED_MESSAGE")];
+         closing := closing c ++ [h]
+       |}).
+Proof. exact C09_only_success_authenticates. Qed.
+
+Theorem C09_preauth_moves :
+  forall (cfg : scfg) (h : N) (m : msg) (p : option (list N)) (c : ctx) (cn : conn),
+    nlookup h (conns (st c)) = Some cn ->
+    c_phase cn = Connecting \/ c_phase cn = Connected ->
+    existsb (N.eqb h) (closing c) = false -> preauth_summary cfg h m c (on_frame cfg h m p c) cn.
+Proof. exact C06_preauth_inert. Qed.
